@@ -103,10 +103,22 @@ class Monitor:
             wrapper = self.wrap(q, c, fn)
             setattr(owner, attr, wrapper)
             self.installed[q] = (owner, attr, fn)
+            # schedulers are looked up through the decorator registry, which holds the original function object
+            try:
+                dec = importlib.import_module("eudoxia.scheduler.decorators")
+                for table in (dec.SCHEDULING_ALGOS, dec.INIT_ALGOS):
+                    for k, v in list(table.items()):
+                        if v is fn:
+                            table[k] = wrapper
+                            self.registry_patches = getattr(self, "registry_patches", []) + [(table, k, fn)]
+            except Exception:
+                pass
 
     def uninstall(self):
         for q, (owner, attr, fn) in self.installed.items():
             setattr(owner, attr, fn)
+        for table, k, fn in getattr(self, "registry_patches", []):
+            table[k] = fn
         self.installed = {}
 
     def wrap(self, q, c, fn):
@@ -165,13 +177,15 @@ class Monitor:
             env2 = dict(env)
             env2["result"] = res
             mon.check(q, c, c.ensures, env2, snap, "post", labels=True)
+            if c.native_ensures:
+                mon.check(q, c, [e for _l, e in c.native_ensures], env2, snap, "native-post", names=[l for l, _e in c.native_ensures])
             return res
         return wrapper
 
-    def check(self, q, c, clauses, env, snap, kind, labels=False):
+    def check(self, q, c, clauses, env, snap, kind, labels=False, names=None):
         for i, cl in enumerate(clauses):
             tags, body = split_tags(cl)
-            label = c.label(i) if labels else str(i)
+            label = names[i] if names else (c.label(i) if labels else str(i))
             try:
                 ok = self.ev.eval(body, env, snap)
                 self.stats["clauses_checked"] += 1
